@@ -1,6 +1,6 @@
 (* C09 — subsets and cross-sections are faithful restrictions. Statements only. *)
 From Coq Require Import Sorting.Sorted Permutation.
-From Verif Require Import Base C02 C09 C09_proofs C09_commute_proofs.
+From Verif Require Import Base C02 C02_sup C09 C09_proofs C09_commute_proofs C09_edges C09_edge_table_proofs.
 
 (* face k of the subset is source face idx[k]: reading its row back through the recorded node
    indices gives the source row (same corners, same cyclic order and start, same padding) *)
@@ -63,3 +63,27 @@ Theorem C09_commute_edges : forall t idx,
   = map (pmap (c09_renumber (snd (c09_slice_faces t idx)))) (edges (c09_rows t idx)).
 Proof. exact slice_edges_commute. Qed.
 Print Assumptions C09_commute_edges.
+
+(* ---- the edge table a subset CARRIES OVER from its source (ds.isel(n_edge=edge_indices) + node renumbering) ---- *)
+
+(* the rows picked by the recorded edge indices, in recorded order, are exactly the edge table of the selected rows *)
+Theorem C09_recorded_edges : forall m T idx, std_table m T ->
+  Forall (fun i => 0 <= i < Z.of_nat (length T)) idx ->
+  c09_pick_edges (edges T) (c09_edge_indices (face_edges T m) idx) = edges (c09_rows T idx).
+Proof. exact pick_edges_eq. Qed.
+Print Assumptions C09_recorded_edges.
+
+(* and the carried table (renumbered through the recorded node indices) IS the edge table derived on the subset:
+   same segments, same order — so edge-centred data sliced with subgrid_edge_indices stay on their edges *)
+Theorem C09_carried_edge_table : forall m T idx, std_table m T ->
+  Forall (fun i => 0 <= i < Z.of_nat (length T)) idx ->
+  fst (c09_slice_edge_table T m idx) = edges (fst (c09_slice_faces T idx)).
+Proof. exact slice_edge_table_eq. Qed.
+Print Assumptions C09_carried_edge_table.
+
+(* the subset's own face_edge derivation therefore accepts and keeps it (C02's keep-or-replace branch) *)
+Theorem C09_carried_edge_table_kept : forall m T idx, std_table m T ->
+  Forall (fun i => 0 <= i < Z.of_nat (length T)) idx ->
+  sup_accepts (fst (c09_slice_faces T idx)) (fst (c09_slice_edge_table T m idx)) = true.
+Proof. exact slice_edge_table_accepted. Qed.
+Print Assumptions C09_carried_edge_table_kept.
